@@ -297,6 +297,59 @@ Proof.
     + apply Hst4. intros Hc. apply (f_equal (@length _)) in Hc. rewrite rev_length in Hc. discriminate.
 Qed.
 
+(* ---- the whole build: every placeholder is patched ---- *)
+Lemma compile_jinv : forall t s4 e,
+  tree_good t -> empty_after_end init t = false ->
+  compile init lit_ok t = Ok (s4, e) -> jinv init [] s4.
+Proof.
+  intros t s4 e [Hdrop Hempty] Hk1 Hc.
+  unfold compile in Hc.
+  apply bind_ok in Hc. destruct Hc as [[[s2 ps] its] [Hinl Hc]].
+  apply bind_ok in Hc. destruct Hc as [s4' [Hfold Hc]]. inversion Hc; subst s4' e. clear Hc.
+  set (s1 := new_jump (mkC [] [] []) (il init (mkC [] [] []))) in *.
+  assert (HIL1 : IL s1 = ilo) by (unfold s1, il; cbn; lia).
+  assert (HJL1 : JL s1 = S jlo) by (unfold s1; rewrite jl_new_jump; unfold jl; cbn; lia).
+  assert (Hj1 : jinv init [] s1).
+  { split; [unfold s1; cbn; discriminate|]. intros k x Hk. unfold s1 in Hk. cbn in Hk.
+    destruct k as [|k]; cbn in Hk; [inversion Hk; left; split; [reflexivity | unfold il; cbn; lia] | destruct k; discriminate]. }
+  assert (Hrj1 : jref_ok init s1 jlo).
+  { split; [lia|]. intros x Hx. rewrite Nat.sub_diag in Hx. unfold s1 in Hx. cbn in Hx. inversion Hx.
+    right. left. unfold il. cbn. lia. }
+  assert (Hb1 : bsinv init s1).
+  { split; [|exact Hrj1]. intros k io j Hk. unfold s1 in Hk. cbn in Hk. destruct k; discriminate. }
+  assert (Hcont1 : cont_ok init s1 (cx_containing (plain jlo))) by (left; reflexivity).
+  assert (Hits : its = []) by (apply (proj1 (inl_items init lit_ok _ _ _ _ _ _ _ Hinl)); reflexivity).
+  subst its.
+  pose proof (inl_jinv init lit_ok _ Hdrop _ _ _ _ _ _ Hinl [] Hj1) as Hj2.
+  pose proof (inl_bsinv init lit_ok _ _ _ _ _ _ _ Hinl Hb1 Hcont1) as Hb2.
+  pose proof (inl_pend_cont init lit_ok _ _ _ _ _ _ _ Hinl Hcont1) as Hpc2.
+  destruct (inl_live init lit_ok _ (conj Hdrop Hempty) _ _ _ _ _ _ Hinl) as [Hlive2 _].
+  destruct (inl_pend_range init lit_ok _ _ _ _ _ _ _ Hinl) as [Hrng2 _].
+  pose proof (inl_ext init lit_ok _ _ _ _ _ _ _ Hinl) as E12.
+  pose proof (ext_il init _ _ E12) as Eil. pose proof (ext_jl init _ _ E12) as Ejl.
+  assert (Hshape : ends_shape default_end) by (left; reflexivity).
+  destruct (finish_spec s2 default_end (holes ps [] ++ []) Hshape Hj2 Hb2) as [E23 [Hcj3 [Hj3 [Hb3 [Ht3 [Hil3 [_ Helide]]]]]]].
+  set (s3 := finish init s2 default_end) in *.
+  assert (HJL3 : JL s3 = JL s2) by (unfold jl; rewrite Hcj3; reflexivity).
+  (* the first body emits at least one instruction *)
+  assert (Hgrow : ilo < IL s3).
+  { destruct (silent t) eqn:Es.
+    - destruct (Nat.eq_dec (IL s3) (IL s2)) as [Heq|Hne]; [|lia].
+      destruct (Nat.eq_dec (IL s2) ilo) as [Heq2|Hne2]; [|lia].
+      exfalso. pose proof (Helide eq_refl Heq) as Hl.
+      assert (Hnil : ci s2 = []) by (unfold il in Heq2; destruct (ci s2); [reflexivity | cbn in Heq2; lia]).
+      unfold last_instr in Hl. rewrite Hnil in Hl. cbn in Hl.
+      unfold empty_after_end in Hk1. rewrite Es, Hl in Hk1. cbn in Hk1. discriminate.
+    - assert (IL s1 < IL s2); [|lia].
+      apply (proj2 (inl_grow init lit_ok _ _ _ _ _ _ _ Hinl)); [reflexivity | exact Es]. }
+  destruct (fold_spec (size t) (run_body_spec (size t)) (rev ps) s3 s4 [] Hfold) as [Hj4 [Hb4 [Ht4 [Hil4 [Hst4 [Hjl4 _]]]]]]; auto.
+  { apply Forall_rev. exact Hlive2. }
+  { apply Forall_rev. eapply Forall_impl; [|exact Hrng2]. cbv beta. intros q Hq. lia. }
+  { apply Forall_rev. eapply Forall_impl; [|exact Hpc2]. cbv beta. intros q Hq.
+    eapply cont_ok_ext; [exact E23 | exact Hq]. }
+  { eapply jinv_mono; [|exact Hj3]. unfold incl, holes. intros z. rewrite map_rev, !in_app_iff, in_rev_iff. cbn [map In]. tauto. }
+Qed.
+
 (* ---- the whole build ---- *)
 Variable nodes : list pnode.
 
